@@ -18,6 +18,7 @@ def hasattr_fn(name):
 
 callable_fn = Function("callable_", Val, BoolSort())
 hash_of = Function("hash_of", Val, z3.IntSort())
+seq_member = Function("seq_member", Val, Val, BoolSort())      # x occurs in the sequence (definition of membership)
 strip_of = Function("strip_of", z3.StringSort(), z3.StringSort())
 
 
@@ -482,7 +483,8 @@ class CallMixin(ExecBase):
         ln = H.length(rt)
         found, missing = p.clone(), p.clone()
         k = fresh_int("idx")
-        found.pc += [k >= 0, k < ln, s.eq_elem(found, SV(found.elem(rt, k, H)), x)]
+        found.pc += [k >= 0, k < ln, s.eq_elem(found, SV(found.elem(rt, k, H)), x), seq_member(rt, x.t)]
+        missing.pc.append(Not(seq_member(rt, x.t)))
         found.add_schema(rt, lambda pth, j: Implies(And(j >= H.lo_(rt), j < H.lo_(rt) + k),
                                                    Not(s.eq_elem(pth, SV(H.raw(rt, j)), x))))
         missing.add_schema(rt, lambda pth, j: Implies(And(j >= H.lo_(rt), j < H.hi_(rt)),
